@@ -90,6 +90,8 @@ def vshim_rewrite(text):
     # largest variant and Kani reads it back through byte-level casts, which CBMC cannot constant-propagate (measured: a harness
     # that had set `state = Interrupt` still explored every arm of `match &self.state`). repr(u8) only fixes the layout.
     text = re.sub(r"(?m)^(\s*)((?:pub(?:\([a-z]+\))? )?enum \w+\s*\{)", r"\1#[repr(u8)] \2", text)
+    # the inline Arc model copies the value on clone: the one stored type without Clone gets it
+    text = text.replace("#[derive(Debug)]\npub struct Line {", "#[derive(Debug, Clone)]\npub struct Line {")
     # the recursive AST positions get the heap-indirect vector (an inline array would make the enums infinitely large)
     text = re.sub(r"\bVec<(Statement|Expression|Variable|ast::Statement|ast::Expression|ast::Variable)>", r"BVec<\1>", text)
     text = re.sub(r"\.to_string\(\)", ".vto_string()", text)
